@@ -1,13 +1,14 @@
 //! rvharness: evaluates one operation of the real rv crate per input line (see lean/RvModel/Wire.lean).
 mod gen_dispatch;
 mod manual;
+mod manual_c13b;
 mod wire;
 use std::io::{BufRead, Write};
 use std::panic::{catch_unwind, AssertUnwindSafe};
 use wire::Args;
 
 /// contributed manual op tables: add `mod manual_<tag>;` above and `manual_<tag>::dispatch` here
-pub static CONTRIB: &[fn(&str, &str, &mut Args) -> Option<String>] = &[];
+pub static CONTRIB: &[fn(&str, &str, &mut Args) -> Option<String>] = &[manual_c13b::dispatch];
 
 fn main() {
     std::panic::set_hook(Box::new(|_| {}));
